@@ -946,6 +946,10 @@ pub mod verif_hooks {
                 "FEATURE_TYPE_CHARACTER_ALTERNATIVES",
                 HB_AAT_LAYOUT_FEATURE_TYPE_CHARACTER_ALTERNATIVES as u64,
             ),
+            (
+                "DELETED_GLYPH",
+                crate::hb::aat_layout::verif_hooks::deleted_glyph() as u64,
+            ),
         ]
     }
 
@@ -1043,5 +1047,25 @@ pub mod verif_hooks {
             successful: b.successful,
             chain_flags: super::super::aat_map::verif_hooks::compile(face, feats),
         }
+    }
+
+    /// `hb_aat_layout_remove_deleted_glyphs` on a hand-made buffer (as `make_buffer`: idx 0, no out-buffer).
+    pub fn purge(level: u32, glyphs: &[(u32, u32)]) -> Vec<(u32, u32)> {
+        let mut b = make_buffer(glyphs, level, Direction::LeftToRight);
+        hb_aat_layout_remove_deleted_glyphs(&mut b);
+        dump(&b)
+    }
+
+    /// Who substitutes and who positions according to the plan `shape()` compiles for this face and
+    /// direction (no script, no language): (apply_morx, apply_gpos, apply_kerx, apply_kern, apply_trak).
+    pub fn plan_appliers(face: &hb_font_t, dir: Direction, feats: &[Feature]) -> [bool; 5] {
+        let plan = hb_ot_shape_plan_t::new(face, dir, None, None, feats);
+        [
+            plan.apply_morx,
+            plan.apply_gpos,
+            plan.apply_kerx,
+            plan.apply_kern,
+            plan.apply_trak,
+        ]
     }
 }
